@@ -29,6 +29,7 @@ from typing import Any, Dict, List, Optional, Tuple
 from asl import absint
 from asl.absint import UNKNOWN, AbsEval
 from asl.cfg import cfg_of
+from asl.flow import find_path, pretty_path
 from asl.loader import AnalysisError, norm, own_nodes
 from . import c11
 from .lru import CLASSES, LruClass, call_paths
@@ -572,6 +573,16 @@ def r10_3(ctx, lc: LruClass) -> None:
               witness=f"reset: {sorted(resets)}")
     if lc.cache:
         ctx.check(emptied, "R10.3", clear, "cache_clear", "cache_clear empties the store")
+    # ... on every path: no early return (say, "nothing stored, nothing to do") may skip a reset — calls that failed
+    # or whose entries were discarded have been counted although the store is empty
+    ccfg = cfg_of(ctx.inlined(clear))
+    for fld in sorted(want):
+        zeroing = [n for n in ccfg.nodes if n.kind == "store" and not n.tag and isinstance(n.info.get("value"), ast.Constant)
+                   and n.info["value"].value == 0 and any(lc.is_self_attr(t, fld) for t in n.info.get("targets", []))]
+        path = find_path(ccfg.entry, lambda x: x is ccfg.exit, avoid=lambda x: x in zeroing,
+                         edge_ok=lambda a, lab, b: lab not in ("e", "p")) if zeroing else None
+        ctx.check(path is None, "R10.3", clear, "cache_clear", f"cache_clear resets `{fld}` on every path",
+                  witness=pretty_path(path))
     # cache_info field order
     fields = lc.cacheinfo_fields()
     ctx.check(fields[:4] == ["hits", "misses", "maxsize", "currsize"], "R10.3", "_lrucache.CacheInfo", "CacheInfo",
